@@ -35,7 +35,7 @@ PROPERTY = "C22"
 LEVEL = "exploration"
 ENGINE = "direct"
 TECHNIQUE = "boundary enumeration of the IANA special-purpose registries against an independent classifier"
-BUDGET = {"quick": (6_000, 14), "thorough": (400_000, 150)}
+BUDGET = {"quick": (4_500, 14), "thorough": (400_000, 150)}
 WORKERS = {"quick": 2, "thorough": 16}
 REQUIRED = ["hook.loopback_not_refused", "hook.localmode_not_refused", "hook.global_decided", "hook.private_decided",
             "hook.off_not_refused", "hook.refused_some", "handler.refused_closed_before_start", "handler.accepted_started",
